@@ -107,30 +107,32 @@ def run(ctx):
     consts = {"MaxN": max_n, "Chunks": chunks, "HeaderBug": '"none"'}
     wd = tlc.prepare_dir(ctx.build / "tlc", ["copy"])
 
-    # ---- 1. the protocol model -------------------------------------------------------------
+    env = {"RR_INPUTS": wd / "inputs.ndjson", "RR_CASES": wd / "cases.ndjson", "RR_VERDICT": wd / "verdict.json"}
+    tw = min(4, ctx.workers)
+
+    # ---- 1. the protocol model (the same TLC run evaluates ASSUME Gen: the input universe, and ASSUME OkIsTight) ---
     (wd / "RR.cfg").write_text(tlc.mk_cfg(spec="Spec", constants=consts,
                                           invariants=["TypeOK", "ProtocolOk", "HeaderOk", "ServedOk"], properties=["Terminates"]))
-    res = tlc.run(wd, "RangeRead", "RR.cfg", workers=ctx.workers, coverage=True)
-    ctx.add_tlc(res, f"RangeRead protocol model, MaxN={max_n}, Chunks={chunks}: ProtocolOk, HeaderOk, ServedOk, Terminates")
+    res = tlc.run(wd, "RangeReadGen", "RR.cfg", workers=tw, coverage=True, env=env)
+    ctx.add_tlc(res, f"RangeRead protocol model, MaxN={max_n}, Chunks={chunks}: ProtocolOk, HeaderOk, ServedOk, Terminates; ASSUME OkIsTight")
     ctx.require_covered(res, ["OpenEmpty", "Request", "Serve", "Open416", "OpenOk", "ReadAll", "ReadChunk", "ReadExactly"])
     for v in res.violations:
+        if v.kind == "assumption":
+            raise MachineryError(f"assumption of RangeReadGen is false: {v.name}")
         ctx.violation(f"range:protocol-model:{v.name}", {"trace": v.trace[-3:]})
-    # falsifiability: off-by-one headers must break ProtocolOk; the antecedents of the invariants are reachable
-    for bug in ("plus", "minus"):
+    # (thorough) the antecedents of the invariants are reachable; the "minus" header bug is caught too
+    for bug in (() if ctx.quick else ("minus",)):
         (wd / "RRbug.cfg").write_text(tlc.mk_cfg(spec="Spec", constants=dict(consts, HeaderBug=f'"{bug}"'), invariants=["ProtocolOk"]))
-        r = tlc.run(wd, "RangeRead", "RRbug.cfg", workers=ctx.workers)
+        r = tlc.run(wd, "RangeRead", "RRbug.cfg", workers=tw)
         if not any(v.name == "ProtocolOk" for v in r.violations):
             raise MachineryError(f"ProtocolOk is not falsified by the off-by-one header '{bug}': the property is vacuous")
-    for reach in ("NeverDoneEof", "NeverPartial"):
+    for reach in (() if ctx.quick else ("NeverDoneEof", "NeverPartial")):
         (wd / "RRreach.cfg").write_text(tlc.mk_cfg(spec="Spec", constants=consts, invariants=[reach]))
-        r = tlc.run(wd, "RangeRead", "RRreach.cfg", workers=ctx.workers)
+        r = tlc.run(wd, "RangeRead", "RRreach.cfg", workers=tw)
         if not r.violations:
             raise MachineryError(f"reachability companion {reach} holds: part of the property is vacuous")
 
-    # ---- 2. B3: enumerate, execute, judge ----------------------------------------------------
-    env = {"RR_INPUTS": wd / "inputs.ndjson", "RR_CASES": wd / "cases.ndjson", "RR_VERDICT": wd / "verdict.json"}
-    (wd / "Eval.cfg").write_text(tlc.mk_cfg(init="EvalInit", next="EvalNext", constants=consts))
-    tlc.run(wd, "RangeReadGen", "Eval.cfg", workers=1, env=env)
+    # ---- 2. B3: execute every generated call, judge ------------------------------------------------
     inputs = [json.loads(l) for l in env["RR_INPUTS"].read_text().splitlines() if l.strip()]
     if not inputs:
         raise MachineryError("TLC generated no inputs")
@@ -147,7 +149,14 @@ def run(ctx):
     with open(env["RR_CASES"], "w") as f:
         for c in cases:
             f.write(json.dumps(c) + "\n")
-    tlc.run(wd, "RangeReadVerdict", "Eval.cfg", workers=1, env=env)
+    # one TLC run: ASSUME Verdict (the B3 verdict) and the falsifiability self-test of the protocol model: with an
+    # off-by-one header (HeaderBug = "plus") the invariant ProtocolOk must be violated
+    (wd / "RRbug.cfg").write_text(tlc.mk_cfg(spec="Spec", constants=dict(consts, HeaderBug='"plus"'), invariants=["ProtocolOk"]))
+    r = tlc.run(wd, "RangeReadVerdict", "RRbug.cfg", workers=tw, env=env)
+    if any(v.kind == "assumption" for v in r.violations):
+        raise MachineryError("ASSUME Verdict of RangeReadVerdict failed")
+    if not any(v.name == "ProtocolOk" for v in r.violations):
+        raise MachineryError("ProtocolOk is not falsified by the off-by-one header 'plus': the property is vacuous")
     verdict = json.loads(env["RR_VERDICT"].read_text())
     if verdict["cases"] != len(cases):
         raise MachineryError(f"TLC judged {verdict['cases']} cases, harness recorded {len(cases)}")
